@@ -536,7 +536,7 @@ func clampInt(kind string, i int64, u uint64) (int64, uint64) {
 
 func drawString(t *rapid.T, allowInvalid bool) []byte {
 	if allowInvalid && rapid.IntRange(0, 24).Draw(t, "badutf8?") == 11 {
-		return []byte(gen.ValidString(8).Draw(t, "pre") + rapid.SampledFrom(gen.InvalidUTF8).Draw(t, "bad") + gen.ValidString(8).Draw(t, "post"))
+		return []byte(gen.ValidString(16).Draw(t, "pre") + rapid.SampledFrom(gen.InvalidUTF8).Draw(t, "bad") + gen.ValidString(16).Draw(t, "post"))
 	}
 	if rapid.IntRange(0, 5).Draw(t, "special?") == 3 {
 		return []byte(rapid.SampledFrom([]string{"NaN", "Infinity", "-Infinity", "<script>&amp;</script>", "  ", "\x00\x1f", "\"\\/", "null", "1e5", "é\U0001F600", "�"}).Draw(t, "special"))
